@@ -423,6 +423,7 @@ package ro
 //@   note the reader goroutine of FromChannel
 //@   props C17 C08
 //@   binds in done destination ctx
+//@   calls CompleteWithContext NextWithContext
 //@   note every wait of the reader is one blocking select over the input channel and the teardown's done channel: it is never parked on the input alone, nor does it poll
 //@   track destination.* loop.* chselect chpoll chrecv.ANY
 //@   ensures [ends-by-completion-or-done|C17,C14] trace(loop.L0, chselect(in, done)) || trace(loop.L0, chselect(in, done), destination.CompleteWithContext(ctx))
@@ -437,6 +438,7 @@ package ro
 //@   note the subscribe function of ToChannel
 //@   props C17 C08
 //@   binds subscriberCtx destination size
+//@   calls NewSubscription NextWithContext recoverUnhandledError
 //@   track chmake destination.* spawn.*
 //@   ensures [one-channel-of-the-configured-capacity-handed-out-once|C17,C08] trace(chmake(size), spawn.ANY, destination.NextWithContext(subscriberCtx, _))
 
@@ -444,6 +446,7 @@ package ro
 //@   note upstream Next
 //@   props C17 C08
 //@   binds value ch destination
+//@   calls NewNotificationNext
 //@   track chsend.* chselect chpoll destination.* call.Once.Do
 //@   ensures [one-blocking-send-per-value|C17,C08] trace(chsend.ch(_, fields(0, value, _)))
 
@@ -451,6 +454,7 @@ package ro
 //@   note upstream Error
 //@   props C17 C08
 //@   binds ctx err ch destination
+//@   calls CompleteWithContext NewNotificationError fn:closeChan
 //@   track chsend.* chselect chpoll destination.* call.Once.Do
 //@   ensures [terminal-sent-then-closed-then-completed|C17,C08] trace(chsend.ch(_, fields(1, _, err)), call.Once.Do, destination.CompleteWithContext(ctx))
 
@@ -458,6 +462,7 @@ package ro
 //@   note upstream Complete
 //@   props C17 C08
 //@   binds ctx ch destination
+//@   calls CompleteWithContext NewNotificationComplete fn:closeChan
 //@   track chsend.* chselect chpoll destination.* call.Once.Do
 //@   ensures [terminal-sent-then-closed-then-completed|C17,C08] trace(chsend.ch(_, fields(2, _, _)), call.Once.Do, destination.CompleteWithContext(ctx))
 
@@ -472,6 +477,7 @@ package ro
 //@   note the teardown
 //@   props C17 C03 C14
 //@   binds subscriptions
+//@   calls Unsubscribe fn:closeChan
 //@   track subscriptions.* call.Once.Do chclose.* chrecv.* chsend.* chselect chpoll
 //@   ensures [releases-upstream-then-closes-once|C17,C03,C14] trace(subscriptions.Unsubscribe(), call.Once.Do)
 //@   ensures [takes-nothing-out-of-the-channel|C17] count(chrecv.ANY) == 0 && count(chpoll) == 0 && count(chselect) == 0
@@ -484,6 +490,7 @@ package ro
 //@   note the subscribe function of detachOn
 //@   props C08
 //@   binds bufferSize
+//@   calls NewSubscription fn:consumeUpstream fn:produceDownstream recoverUnhandledError
 //@   maypanic
 //@   inline processNotificationWithContext
 //@   track chmake
@@ -493,6 +500,7 @@ package ro
 //@   note upstream Next
 //@   props C08 C09
 //@   binds ctx value ch destination
+//@   calls NewNotificationNext T2
 //@   track chsend.* chselect chpoll destination.* call.Once.Do
 //@   ensures [one-blocking-send-per-value|C08] trace(chsend.ch(_, fields(ctx, fields(0, value, _))))
 
@@ -500,6 +508,7 @@ package ro
 //@   note upstream Error
 //@   props C08 C09
 //@   binds ctx err ch destination
+//@   calls NewNotificationError T2 fn:stop
 //@   track chsend.* chselect chpoll destination.* call.Once.Do
 //@   ensures [terminal-queued-like-a-value-then-closed|C08] trace(chsend.ch(_, fields(ctx, fields(1, _, err))), call.Once.Do)
 
@@ -507,6 +516,7 @@ package ro
 //@   note upstream Complete
 //@   props C08 C09
 //@   binds ctx ch destination
+//@   calls NewNotificationComplete T2 fn:stop
 //@   track chsend.* chselect chpoll destination.* call.Once.Do
 //@   ensures [terminal-queued-like-a-value-then-closed|C08] trace(chsend.ch(_, fields(ctx, fields(2, _, _))), call.Once.Do)
 
@@ -514,6 +524,7 @@ package ro
 //@   note the consumer loop (produceDownstream)
 //@   props C08 C09
 //@   binds ch destination
+//@   calls processNotificationWithContext
 //@   maypanic
 //@   inline processNotificationWithContext
 //@   track chrecv.* destination.* loop.* spawn.*
@@ -720,6 +731,7 @@ package ro
 //@   note consume: the timer callback releases the head of the queue (FIFO), or nothing when the teardown emptied it
 //@   props C16 C09
 //@   binds muQueue queue muNext destination
+//@   calls Lock Unlock processNotificationWithObserverAndContext
 //@   maypanic
 //@   inline processNotificationWithObserverAndContext processNotificationWithContext
 //@   track destination.*
@@ -741,13 +753,14 @@ package ro
 //@   note the ticking goroutine of Interval: value k is emitted on the k-th tick received, nothing is emitted without a tick
 //@   props C16 C09
 //@   binds destination ctx
+//@   calls CompleteWithContext Done NextWithContext
 //@   track destination.* loop.* chselect chpoll chrecv.ANY ctx.Done
 //@   ensures [completes-when-told-to-stop|C16] trace(loop.L0, ctx.Done(), chselect, destination.CompleteWithContext(ctx))
 
 //@ loop Interval$1$1#0
 //@   iteration ensures count(chselect) == 1 && count(chpoll) == 0 && count(chrecv.ANY) == 0 && count(destination.NextWithContext) <= 1 && before(chselect, destination.NextWithContext)
 //@   iteration ensures called(destination.NextWithContext) ==> arg(destination.NextWithContext, 0) == ctx && arg(destination.NextWithContext, 1) == value
-//@   iteration ensures count(ctx.Done) == 1 && arg(chselect, 0) == done && arg(chselect, 1) == res(ctx.Done)
+//@   iteration ensures count(ctx.Done) == 1 && watches(chselect, done) && watches(chselect, res(ctx.Done))
 
 // ---------------------------------------------------------------------------
 // second batch: remaining single-source operators
@@ -877,6 +890,7 @@ package ro
 //@ func Iif$1
 //@   props C04
 //@   binds predicate source1 source2
+//@   calls fn:predicate
 //@   maypanic
 //@   track callfn.*
 //@   ensures [asks-once] !panics ==> count(callfn.predicate) == 1
@@ -923,7 +937,8 @@ package ro
 //@ func zipInnerSubscription$3
 //@   note the completion callback of one zipped source
 //@   props C05 C09
-//@   binds ctx values destination subscriptions
+//@   binds ctx mu values muEmit destination subscriptions
+//@   calls CompleteWithContext Lock Unlock Unsubscribe
 //@   track destination.* subscriptions.*
 //@   ensures [a-drained-source-completes-the-output|C05,C09] len(old(values)) == 0 ==> trace(destination.CompleteWithContext(ctx), subscriptions.Unsubscribe())
 //@   ensures [a-finished-source-with-queued-values-keeps-the-others-subscribed|C05] len(old(values)) > 0 ==> trace()
@@ -933,6 +948,7 @@ package ro
 //@   note the error callback of one zipped source: the error ends the output at once and releases every source
 //@   props C05 C07 C09
 //@   binds ctx err destination subscriptions
+//@   calls ErrorWithContext Lock Unlock Unsubscribe
 //@   track destination.* subscriptions.*
 //@   ensures [error-ends-the-output-and-releases-the-others|C05,C09] trace(destination.ErrorWithContext(ctx, err), subscriptions.Unsubscribe())
 
@@ -965,7 +981,8 @@ package ro
 //@ func ZipWith1$1$1$1
 //@   note onUpdate of Zip2 / ZipWith1: once every queue has a value the heads are popped and emitted as one tuple; the output then completes exactly when a finished source's queue is empty
 //@   props C05 C04
-//@   binds ctx valueA valueB destination completedA completedB
+//@   binds ctx mu valueA valueB muEmit destination completedA completedB
+//@   calls CompleteWithContext Lock NextWithContext T2 Unlock
 //@   track destination.*
 //@   ensures [take-and-delivery-are-one-step-for-the-other-sources|C05] heldat(muEmit, destination.ANY) && notheldat(mu, destination.ANY)
 //@   ensures [no-tuple-until-every-queue-has-a-value|C05] !(len(old(valueA)) > 0 && len(old(valueB)) > 0) ==> trace()
@@ -976,7 +993,8 @@ package ro
 //@ func ZipWith2$1$1$1
 //@   note onUpdate of Zip3 / ZipWith2: as ZipWith1, over 3 queues
 //@   props C05 C04
-//@   binds ctx valueA valueB valueC destination completedA completedB completedC
+//@   binds ctx mu valueA valueB valueC muEmit destination completedA completedB completedC
+//@   calls CompleteWithContext Lock NextWithContext T3 Unlock
 //@   track destination.*
 //@   ensures [take-and-delivery-are-one-step-for-the-other-sources|C05] heldat(muEmit, destination.ANY) && notheldat(mu, destination.ANY)
 //@   ensures [no-tuple-until-every-queue-has-a-value|C05] !(len(old(valueA)) > 0 && len(old(valueB)) > 0 && len(old(valueC)) > 0) ==> trace()
@@ -987,7 +1005,8 @@ package ro
 //@ func ZipWith3$1$1$1
 //@   note onUpdate of Zip4 / ZipWith3: as ZipWith1, over 4 queues
 //@   props C05 C04
-//@   binds ctx valueA valueB valueC valueD destination completedA completedB completedC completedD
+//@   binds ctx mu valueA valueB valueC valueD muEmit destination completedA completedB completedC completedD
+//@   calls CompleteWithContext Lock NextWithContext T4 Unlock
 //@   track destination.*
 //@   ensures [take-and-delivery-are-one-step-for-the-other-sources|C05] heldat(muEmit, destination.ANY) && notheldat(mu, destination.ANY)
 //@   ensures [no-tuple-until-every-queue-has-a-value|C05] !(len(old(valueA)) > 0 && len(old(valueB)) > 0 && len(old(valueC)) > 0 && len(old(valueD)) > 0) ==> trace()
@@ -998,7 +1017,8 @@ package ro
 //@ func ZipWith4$1$1$1
 //@   note onUpdate of Zip5 / ZipWith4: as ZipWith1, over 5 queues
 //@   props C05 C04
-//@   binds ctx valueA valueB valueC valueD valueE destination completedA completedB completedC completedD completedE
+//@   binds ctx mu valueA valueB valueC valueD valueE muEmit destination completedA completedB completedC completedD completedE
+//@   calls CompleteWithContext Lock NextWithContext T5 Unlock
 //@   track destination.*
 //@   ensures [take-and-delivery-are-one-step-for-the-other-sources|C05] heldat(muEmit, destination.ANY) && notheldat(mu, destination.ANY)
 //@   ensures [no-tuple-until-every-queue-has-a-value|C05] !(len(old(valueA)) > 0 && len(old(valueB)) > 0 && len(old(valueC)) > 0 && len(old(valueD)) > 0 && len(old(valueE)) > 0) ==> trace()
@@ -1009,7 +1029,8 @@ package ro
 //@ func ZipWith5$1$1$1
 //@   note onUpdate of Zip6 / ZipWith5: as ZipWith1, over 6 queues
 //@   props C05 C04
-//@   binds ctx valueA valueB valueC valueD valueE valueF destination completedA completedB completedC completedD completedE completedF
+//@   binds ctx mu valueA valueB valueC valueD valueE valueF muEmit destination completedA completedB completedC completedD completedE completedF
+//@   calls CompleteWithContext Lock NextWithContext T6 Unlock
 //@   track destination.*
 //@   ensures [take-and-delivery-are-one-step-for-the-other-sources|C05] heldat(muEmit, destination.ANY) && notheldat(mu, destination.ANY)
 //@   ensures [no-tuple-until-every-queue-has-a-value|C05] !(len(old(valueA)) > 0 && len(old(valueB)) > 0 && len(old(valueC)) > 0 && len(old(valueD)) > 0 && len(old(valueE)) > 0 && len(old(valueF)) > 0) ==> trace()
@@ -1147,7 +1168,6 @@ package ro
 //@ func SequenceEqual$1$1
 //@   note the documented meaning ("determines whether two observable sequences are equal", docs: different lengths give false) compares the lengths too; zipping alone ends at the shorter sequence and answers true for a proper prefix (Just(1,2,3) against Just(1,2)). A necessary condition is stated: the comparison is not left to Zip2 alone
 //@   props C04
-//@   binds subscriberCtx destination source obsB
 //@   track call.Zip2
 //@   ensures [sequences-of-different-length-are-not-equal|C04] !called(call.Zip2)
 
@@ -1163,6 +1183,7 @@ package ro
 //@   note the subscribe function of Timer: one timer of the configured duration; the value (the duration) is delivered only after the timer fired
 //@   props C16 C04
 //@   binds ctx destination duration
+//@   calls CompleteWithContext Done Err ErrorWithContext NewTimer NextWithContext Stop
 //@   track destination.* chselect chpoll call.NewTimer call.Timer.Stop
 //@   ensures [arms-one-timer-of-the-duration-and-waits-for-it|C16] called(call.NewTimer) && arg(call.NewTimer, 0) == duration && count(call.NewTimer) == 1 && count(chselect) == 1 && count(chpoll) == 0 && before(call.NewTimer, chselect)
 //@   ensures [emits-the-duration-only-after-the-wait|C16,C04] called(destination.NextWithContext) ==> before(chselect, destination.NextWithContext) && arg(destination.NextWithContext, 0) == ctx && arg(destination.NextWithContext, 1) == duration && before(destination.NextWithContext, destination.CompleteWithContext)
@@ -1172,13 +1193,14 @@ package ro
 //@   note the ticking goroutine of IntervalWithInitial: every value follows a tick of the initial timer or of the ticker; at most one value per tick; completes when told to stop
 //@   props C16 C09
 //@   binds destination ctx
+//@   calls CompleteWithContext Done NextWithContext Reset
 //@   track destination.* loop.* chselect chpoll chrecv.ANY ctx.Done
 //@   ensures [completes-when-told-to-stop|C16] trace(loop.L0, ctx.Done(), chselect, destination.CompleteWithContext(ctx))
 
 //@ loop IntervalWithInitial$1$1#0
 //@   iteration ensures count(chselect) == 1 && count(chpoll) == 0 && count(chrecv.ANY) == 0 && count(destination.NextWithContext) <= 1 && before(chselect, destination.NextWithContext)
 //@   iteration ensures called(destination.NextWithContext) ==> arg(destination.NextWithContext, 0) == ctx && arg(destination.NextWithContext, 1) == value - 1
-//@   iteration ensures count(ctx.Done) == 1 && arg(chselect, 0) == done && arg(chselect, 1) == res(ctx.Done)
+//@   iteration ensures count(ctx.Done) == 1 && watches(chselect, done) && watches(chselect, res(ctx.Done))
 
 // math lifts: each value is replaced by what the standard function returns for it (floating point itself is not reasoned about)
 
@@ -1213,6 +1235,7 @@ package ro
 //@   note onUpdate: while not done, one tuple of the latest values of every source (in source order) once all of them have emitted; nothing otherwise
 //@   props C05 C04
 //@   binds ctx status values destination
+//@   calls Load LoadInt32 NextWithContext
 //@   inline (*Pointer).Load
 //@   track destination.* loop.*
 //@   ensures [silent-once-done-or-failed|C05] loaded(status) <= 0 ==> trace()
@@ -1227,6 +1250,7 @@ package ro
 //@   note onCompleted: the output completes exactly when the last source has completed
 //@   props C05
 //@   binds status destination
+//@   calls CompleteWithContext LoadInt32
 //@   track destination.*
 //@   ensures [completes-only-when-every-source-is-done|C05] iff(called(destination.CompleteWithContext), loaded(status) == 0)
 
@@ -1236,6 +1260,7 @@ package ro
 //@   note the goroutine of Future: the factory runs once; its value then completion, or its error
 //@   props C04 C07 C09
 //@   binds factory destination ctx
+//@   calls CompleteWithContext ErrorWithContext NextWithContext TryCatchWithErrorValue
 //@   maypanic
 //@   track callfn.factory destination.*
 //@   ensures [value-then-completion|C04] !panicked(factory) && res(callfn.factory, 1) == nil ==> trace(callfn.factory(), destination.NextWithContext(ctx, res(callfn.factory, 0)), destination.CompleteWithContext(ctx))
@@ -1258,6 +1283,7 @@ package ro
 //@   note the subscribe function of ThrowOnContextCancel: an already cancelled context fails at once; otherwise a watcher goroutine is started for every kind of context (with or without a deadline), then the source is subscribed
 //@   props C14 C09
 //@   binds subscriberCtx destination source
+//@   calls Err ErrorWithContext NewObserverWithContext SubscribeWithContext recoverUnhandledError
 //@   track destination.* spawn.ANY source.SubscribeWithContext
 //@   ensures [an-already-cancelled-context-fails-at-once|C14] res(subscriberCtx.Err) != nil ==> trace(destination.ErrorWithContext(subscriberCtx, _))
 //@   ensures [the-context-is-watched-then-the-source-subscribed|C14] res(subscriberCtx.Err) == nil ==> trace(spawn.ANY, source.SubscribeWithContext(subscriberCtx, _))
@@ -1266,6 +1292,7 @@ package ro
 //@   note the watcher: one blocking wait on the context and on the teardown's done channel; cancellation becomes an Error
 //@   props C14
 //@   binds destination
+//@   calls CompleteWithContext Done Err ErrorWithContext
 //@   track destination.* chselect chpoll chrecv.ANY
 //@   ensures [waits-once-for-cancellation-or-teardown|C14] count(chselect) == 1 && count(chpoll) == 0 && count(chrecv.ANY) == 0
 //@   ensures [cancellation-becomes-an-error-teardown-a-completion|C14] count(destination.ErrorWithContext) + count(destination.CompleteWithContext) == 1
@@ -1276,7 +1303,8 @@ package ro
 //@ func Interval$1
 //@   note the subscribe function of Interval: one ticker of the configured period, nothing is emitted before the first tick
 //@   props C16
-//@   binds ctx destination interval
+//@   binds destination interval
+//@   calls NewTicker recoverUnhandledError
 //@   requires interval > 0
 //@   maypanic
 //@   track destination.* call.NewTicker
@@ -1287,6 +1315,7 @@ package ro
 //@   note the subscribe function of IntervalWithInitial: a timer for the initial delay and a ticker, both armed with legal periods; an initial delay of zero delivers value 0 before returning, a positive one nothing
 //@   props C16
 //@   binds ctx destination initial interval
+//@   calls NewTicker NewTimer NextWithContext Reset recoverUnhandledError
 //@   requires initial >= 0 && interval > 0
 //@   maypanic
 //@   track destination.* call.NewTicker call.NewTimer
@@ -1298,7 +1327,8 @@ package ro
 //@ func zipAllInnerSubscriptions$2
 //@   note onUpdate of ZipAll / Zip: as the onUpdate of ZipWith1, over a slice of queues; whatever it delivers is delivered under the emit lock, which orders the deliveries of the sources' goroutines, and outside the state lock, which the teardown takes
 //@   props C05
-//@   binds ctx destination
+//@   binds mu hasEmptyQueue muEmit sources values destination
+//@   calls CompleteWithContext Lock NextWithContext Unlock fn:hasEmptyQueue
 //@   maypanic
 //@   trusted nopanic/index : the queues are indexed in range because len(values) == len(sources) and hasEmptyQueue() just reported every queue non-empty under the same lock; not proved here (quantified facts about a slice of slices)
 //@   track destination.* loop.*
@@ -1354,42 +1384,48 @@ package ro
 
 //@ func WindowWhen$1$1$2
 //@   props C05 C20
-//@   binds ctx value
+//@   binds value muEmit window destination
+//@   calls Lock NextWithContext Unlock
 //@   maypanic
 //@   track window.* tmp.* destination.*
 //@   ensures [the-value-reaches-the-current-window-under-the-emit-lock|C05,C20] heldat(muEmit, tmp.ANY) && heldat(muEmit, destination.ANY)
 
 //@ func WindowWhen$1$1$3
 //@   props C05 C20
-//@   binds ctx err destination
+//@   binds muEmit destination
+//@   calls ErrorWithContext Lock Unlock fn:flush
 //@   maypanic
 //@   track destination.*
 //@   ensures [the-last-window-is-closed-and-the-error-delivered-in-one-step|C05,C20] heldat(muEmit, destination.ANY) && called(destination.ErrorWithContext)
 
 //@ func WindowWhen$1$1$4
 //@   props C05 C20
-//@   binds ctx destination
+//@   binds muEmit destination
+//@   calls CompleteWithContext Lock Unlock fn:flush
 //@   maypanic
 //@   track destination.*
 //@   ensures [the-last-window-is-closed-and-the-completion-delivered-in-one-step|C05,C20] heldat(muEmit, destination.ANY) && called(destination.CompleteWithContext)
 
 //@ func WindowWhen$1$1$5
 //@   props C05 C20
-//@   binds ctx
+//@   binds muEmit destination
+//@   calls Lock Unlock fn:flush
 //@   maypanic
 //@   track destination.*
 //@   ensures [a-tick-swaps-the-window-under-the-emit-lock|C05,C20] heldat(muEmit, destination.ANY)
 
 //@ func WindowWhen$1$1$6
 //@   props C05 C20
-//@   binds ctx err destination
+//@   binds muEmit destination
+//@   calls ErrorWithContext Lock Unlock fn:flush
 //@   maypanic
 //@   track destination.*
 //@   ensures [the-last-window-is-closed-and-the-error-delivered-in-one-step|C05,C20] heldat(muEmit, destination.ANY) && called(destination.ErrorWithContext)
 
 //@ func WindowWhen$1$1$7
 //@   props C05 C20
-//@   binds ctx destination
+//@   binds muEmit destination
+//@   calls CompleteWithContext Lock Unlock fn:flush
 //@   maypanic
 //@   track destination.*
 //@   ensures [the-last-window-is-closed-and-the-completion-delivered-in-one-step|C05,C20] heldat(muEmit, destination.ANY) && called(destination.CompleteWithContext)
